@@ -1,4 +1,4 @@
-From QV Require Import model.Base model.Lang model.Types model.Tir model.CfgCheck model.Builder model.Passes model.TirCase gen.GenE0 proofs.CfgProofs proofs.BuilderSafeSwitch proofs.BuilderCfg proofs.BuilderOpenCount spec.Typing proofs.ReturnType props.C06.
+From QV Require Import model.Base model.Lang model.Types model.Tir model.CfgCheck model.Builder model.Passes model.TirCase gen.GenE0 proofs.CfgProofs proofs.BuilderSafeSwitch proofs.BuilderCfg proofs.BuilderOpenCount spec.Typing proofs.ReturnType proofs.IrTyped proofs.Unreachable props.C06.
 Open Scope nat_scope.
 Check (C06_checker_sound : forall c exempt, cfg_ok c exempt = true ->
   forall p, path (c_blocks c) p ->
@@ -33,3 +33,8 @@ Check (C06_every_return_fits_the_return_type : forall E c d t, resolve_return_ty
 Check (C06_value_body_has_no_bare_return : forall E c d t, resolve_return_type E c = Some d -> concrete d = Some t -> t <> T_VOID ->
   forall b, In b (c_blocks c) -> b_term b <> Some (TmReturn OVoid)).
 Check (C06_return_type_examples).
+Check (C06_unreachable_marker_is_isolated : forall E cb c, bu_code (build_callback E cb) = Some c ->
+  forall i b, nth_error (c_blocks c) i = Some b -> b_term b = Some TmUnreachable ->
+    i <> 0 /\ forall j bj, nth_error (c_blocks c) j = Some bj -> ~ In i (succs bj)).
+Check (C06_no_path_ends_in_the_unreachable_marker : forall E cb c, bu_code (build_callback E cb) = Some c ->
+  forall p b, path (c_blocks c) p -> nth_error (c_blocks c) (last_block p) = Some b -> b_term b <> Some TmUnreachable).
